@@ -28,7 +28,7 @@ func genDp(r *core.Rand) core.Case {
 	}
 	wLo, wHi, vLo, vHi := 0, 5, 1, 5
 	tag := "dp"
-	switch r.Pick(60, 12, 10, 6, 6, 6) {
+	switch r.Pick(50, 12, 10, 6, 6, 6, 10) {
 	case 1: // very many ties
 		wHi, vHi = 2, 2
 		wLo = 1
@@ -43,6 +43,9 @@ func genDp(r *core.Rand) core.Case {
 		tag = "dp-malformed-zero"
 		vLo = 0
 		vHi = 3
+	case 6: // sparse totals: many limits are not attainable, overshoot matters
+		tag = "dp-sparse"
+		vLo, vHi = 3, 9
 	}
 	var sb strings.Builder
 	sb.WriteString("@ C18 dp")
